@@ -10,7 +10,15 @@ pub mod vcell {
     // restores the invariant before the guard is dropped (for PendingPacket the only mutator is
     // acknowledge_fragment, which is proved to preserve it; RemoteClient's invariant is `true`).
     use vstd::prelude::*;
-    pub trait CellInv { spec fn cell_inv(&self) -> bool; }
+    pub trait CellInv: Sized {
+        spec fn cell_inv(&self) -> bool;
+        /// two-state cell invariant: relation between the value the cell was constructed with (`RefCell::init`)
+        /// and the content seen at any later borrow. Default `true` (nothing remembered). An implementor that
+        /// overrides it asserts that no mutation through a RefMut ever breaks the relation (for PendingPacket:
+        /// DESIGN section 4 item 4, the immutability axiom, guarded syntactically; its only mutator
+        /// `acknowledge_fragment` is proved to preserve it).
+        open spec fn cell_const(init: &Self, cur: &Self) -> bool { true }
+    }
     #[verifier::external_body]
     #[verifier::reject_recursive_types(T)]
     pub struct RefCell<T: CellInv> { inner: std::cell::RefCell<T> }
@@ -21,12 +29,14 @@ pub mod vcell {
     #[verifier::reject_recursive_types(T)]
     pub struct Ref<'a, T: CellInv> { inner: std::cell::Ref<'a, T> }
     impl<T: CellInv> RefCell<T> {
+        /// the value this cell was constructed with (a function of the cell's identity; never changes)
+        pub uninterp spec fn init(&self) -> T;
         #[verifier::external_body]
-        pub fn new(v: T) -> Self requires v.cell_inv() { RefCell { inner: std::cell::RefCell::new(v) } }
+        pub fn new(v: T) -> (r: Self) requires v.cell_inv() ensures r.init() == v { RefCell { inner: std::cell::RefCell::new(v) } }
         #[verifier::external_body]
-        pub fn borrow_mut(&self) -> (r: RefMut<'_, T>) ensures r.val().cell_inv() { RefMut { inner: self.inner.borrow_mut() } }
+        pub fn borrow_mut(&self) -> (r: RefMut<'_, T>) ensures r.val().cell_inv(), T::cell_const(&self.init(), &r.val()) { RefMut { inner: self.inner.borrow_mut() } }
         #[verifier::external_body]
-        pub fn borrow(&self) -> (r: Ref<'_, T>) ensures r.val().cell_inv() { Ref { inner: self.inner.borrow() } }
+        pub fn borrow(&self) -> (r: Ref<'_, T>) ensures r.val().cell_inv(), T::cell_const(&self.init(), &r.val()) { Ref { inner: self.inner.borrow() } }
     }
     impl<'a, T: CellInv> RefMut<'a, T> { pub uninterp spec fn val(&self) -> T; }
     impl<'a, T: CellInv> Ref<'a, T> { pub uninterp spec fn val(&self) -> T; }
@@ -66,8 +76,11 @@ pub assume_specification<T, A: std::alloc::Allocator> [std::collections::VecDequ
         index >= old(v)@.len() ==> r is None && final(v)@ == old(v)@,
         index < old(v)@.len() ==> (r matches Some(e) && *e == old(v)@[index as int] && final(v)@ == old(v)@.update(index as int, *final(e)));
 pub assume_specification<T: Default> [core::mem::take::<T>] (dest: &mut T) -> (r: T)
-    ensures r == *old(dest);
-pub assume_specification<T: ?Sized, A: std::alloc::Allocator + Clone> [std::rc::Weak::<T, A>::upgrade] (w: &std::rc::Weak<T, A>) -> (r: std::option::Option<std::rc::Rc<T, A>>);
+    ensures r == *old(dest), T::default.ensures((), *final(dest));
+/// the allocation a Weak was created from (Rc::downgrade); upgrade can only ever return that one
+pub uninterp spec fn weak_rc<T: ?Sized, A: std::alloc::Allocator>(w: &std::rc::Weak<T, A>) -> std::rc::Rc<T, A>;
+pub assume_specification<T: ?Sized, A: std::alloc::Allocator + Clone> [std::rc::Weak::<T, A>::upgrade] (w: &std::rc::Weak<T, A>) -> (r: std::option::Option<std::rc::Rc<T, A>>)
+    ensures r matches Some(rc) ==> rc == weak_rc(w);
 pub assume_specification<T, A: std::alloc::Allocator> [std::vec::Vec::<T, A>::into_boxed_slice] (v: std::vec::Vec<T, A>) -> (r: std::boxed::Box<[T], A>)
     ensures r@ == v@;
 pub assume_specification<T> [core::mem::replace::<T>] (dest: &mut T, src: T) -> (r: T)
